@@ -33,7 +33,8 @@ CLAIMS["C20"] = dict(
          "histories, the real H5ScalarEvent / ChildScalar summary readers "
          "and the summary-completion loop of the real rtdc_copy/h5ds_copy; "
          "z3 proves 'reported min/max/mean == NaN-ignoring min/max/mean of "
-         "all stored values' (exact real arithmetic) on every path.",
+         "all stored values' (exact real arithmetic) on every path."
+         ' The real store_feature in replace mode over a writer-written feature is included.',
     note="Trusted: z3, symx, the numpy/h5py shims (validated each run "
          "against real numpy/h5py on concrete histories). Floats are exact "
          "reals + NaN flag: rounding of the running mean, inf and integer "
@@ -55,7 +56,8 @@ CLAIMS["C15"] = dict(
          "characters (1..3 printable ASCII), inversion flag and identifier: "
          "one or two filters written to one file are loaded back with equal "
          "name, axes, inversion, identifier and points."
-         " Integer-typed x data with fractional y data (numpy's truncating assignment cast is modelled).",
+         " Integer-typed x data with fractional y data (numpy's truncating assignment cast is modelled)."
+         ' Polygons are built through the real constructor and _check_data.',
     note="Trusted: z3/nlsat, symx, the hand model of the 10-line "
          "_points_in_poly wrapper. Exact reals, not IEEE doubles; vertex "
          "count bounded; names with leading/trailing blanks or line breaks "
@@ -96,7 +98,8 @@ CLAIMS["C03"] = dict(
          "modified, flags, limit), data are reals-or-NaN; z3 proves "
          "filter.all == stateless specification and that the invariant is "
          "re-established, which covers setting histories of any length."
-         " The real PolygonFilter.hash (which Filter.update uses to detect edits) is proved to differ whenever axes, points or the inversion flag differ.",
+         " The real PolygonFilter.hash (which Filter.update uses to detect edits) is proved to differ whenever axes, points or the inversion flag differ."
+         ' The dataset stub separates available from loaded (computed) features.',
     note="Trusted: z3, symx, numpy shim, stubs for the dataset/config/"
          "PolygonFilter objects (polygon classification is an uninterpreted "
          "boolean per (filter, version, event); C15 covers it). Bounds: 2 "
@@ -145,7 +148,8 @@ CLAIMS["C14"] = dict(
          "below a remote dataset), completeness for a direct valid basin and "
          "absence of escaping exceptions."
          " The permission flag is the one the real RTDC_HDF5.__init__ assigns per format name; basin definitions whose declared type contradicts the class of their format must not be followed."
-         " A basin definition with two candidate locations resolves to the first location holding a matching, available file.",
+         " A basin definition with two candidate locations resolves to the first location holding a matching, available file."
+         ' File-basin availability runs the real HDF5Basin.is_available over a two-step history (basin file present or absent at each opening).',
     note="Trusted: symx, the stub dataset/basin subclasses (format, "
          "availability, _load_dataset). Bounds: 3 (4) files, identifiers "
          "from 6 relation classes. The deciding step here is exhaustive "
@@ -209,7 +213,8 @@ CLAIMS["C09"] = dict(
          "executed and z3 proves chronological order (ties stable), stored "
          "features == features available in every input, time/frame "
          "continued by the acquisition offset, logs of every source kept, no "
-         "exception.",
+         "exception."
+         ' Join inputs may store a non-rapid ancillary feature or only be able to compute it.',
     note="Trusted: z3, symx (SStr = per-path concrete length, symbolic "
          "characters), stubs for new_dataset/export/RTDCWriter, "
          "time.strptime/mktime linear in the parsed fields, round() and "
@@ -257,7 +262,8 @@ CLAIMS["C18"] = dict(
          "inverts the modelled spill-over for every non-negative invertible "
          "matrix."
          " get_volume wrapper (>= 4 points give a volume; repeating a vertex changes nothing); remove_duplicates == removal of consecutive (circular) duplicates."
-         " 16-bit gray values; wrap-around of narrow integer casts is modelled.",
+         " 16-bit gray values; wrap-around of narrow integer casts is modelled."
+         ' Contours given as float32/float16: dtype-flow obligation that coordinate products are formed in 64 bit (numerical witness in the replay).',
     note="Trusted: z3/nlsat, symx, numpy shim (roll, diff, resize, symbolic "
          "3x3 inverse); np.std/np.percentile are uninterpreted. NOT covered "
          "(not encodable here, see not-applicable parts in DESIGN.md): "
@@ -306,7 +312,8 @@ CLAIMS["C01"] = dict(
          "previous ++ written, index 1..N as uint32, event count, mask "
          "255/0 round trip, contiguous contour keys, no truncated line."
          " Also: replace-mode sessions that store contours twice, log lines with symbolic character AND byte counts (multi-byte text)."
-         " The `index` feature is an enumeration 1..N in append and replace mode.",
+         " The `index` feature is an enumeration 1..N in append and replace mode."
+         ' Logs are read back through the real H5Logs reader with symbolic leading/trailing white space per line.',
     note="Trusted: z3, symx, the h5py stand-in (validated each run against "
          "real h5py for the append loop). libhdf5 itself, value dtype "
          "casting, compound tables and unicode normalisation are outside.",
@@ -325,7 +332,8 @@ CLAIMS["C02"] = dict(
          "at the selected indices, in order' as equalities of index terms; "
          "the dataset-level loop is run for every filter over 4 events, "
          "filtered or not, for hdf5/dict/hierarchy/tdms-like sources, with "
-         "duplicate feature names and one shorter feature.",
+         "duplicate feature names and one shorter feature."
+         ' Export onto a path that already holds an earlier export (override=True) is included.',
     note="Trusted: z3, symx, h5py stand-in, source/dataset stubs (an "
          "'event-wise' source stands for tdms/DCOR). np.savetxt formatting, "
          "fcs/avi export and real tdms readers are outside.",
@@ -346,7 +354,8 @@ CLAIMS["C07"] = dict(
          "basins) resp. the original symbolic map restricted to the selected "
          "events (mapped basins) - by induction the composed map of any "
          "export chain."
-         " Exports of hierarchy children (depth 1..2): the stored basin map equals the root indices of the exported events; summaries offered by a mapped proxy must be those of the mapped events.",
+         " Exports of hierarchy children (depth 1..2): the stored basin map equals the root indices of the exported events; summaries offered by a mapped proxy must be those of the mapped events."
+         ' Mapped basin features are also read with negative integer indices.',
     note="Trusted: z3, symx, origin/dataset stubs, h5py stand-in. Path "
          "resolution, remote basins, identifier checks (C14) and the "
          "innate-over-basin lookup order are outside this check.",
@@ -365,7 +374,8 @@ CLAIMS["C08"] = dict(
          "the structural diff source/copy empty, the source untouched, "
          "summaries completed, copy(copy) == copy; variable-length logs with "
          "symbolic byte and character lengths are copied without truncation."
-         " The real dclab-repack / dclab-compress task functions run with symbolic options over the in-memory files: only what an option strips may be missing.",
+         " The real dclab-repack / dclab-compress task functions run with symbolic options over the in-memory files: only what an option strips may be missing."
+         " Root attributes (incl. names with several ':') are compared as well.",
     note="Trusted: z3, symx, h5py stand-in (iter_chunks tiling, zstd filter "
          "report, h5o.copy = deep copy). dclab-tdms2rtdc is NOT covered "
          "(nptdms/imageio parsing is not encodable); real re-chunking / "
@@ -385,7 +395,8 @@ CLAIMS["C04"] = dict(
          "proves for every level: len(child) == #selected, every feature "
          "kind == parent restricted in order, manual array == complement of "
          "the ghost set of excluded ROOT events (incl. hidden ones coming "
-         "back), child filter == manual & range.",
+         "back), child filter == manual & range."
+         ' util.hashobj is a structural stand-in (nested lists of integers, boolean arrays, hashes).',
     note="Trusted: z3, symx, numpy shim, root stub. Bounds: 3 (thorough 4) "
          "root events, depth 1..3 (thorough ..4), <= 9 (12) operations. "
          "Re-inclusion of excluded events and edits on a stale child are "
@@ -408,7 +419,8 @@ CLAIMS["C13"] = dict(
          "specification derives from the corrupted state, that the checker "
          "never crashes, and that the real rtdc_copy's output gets the same "
          "violations."
-         " Dataset kinds include mask-only and fl3-only files.",
+         " Dataset kinds include mask-only and fl3-only files."
+         ' External data linked below a sub-group of /events is one of the corruptions.',
     note="Trusted: z3, symx, h5py stand-in, reader view (validated by "
          "replaying on real files with real h5py incl. external links). "
          "Only violations are specified (not alerts/info); tdms, ancillary "
@@ -434,7 +446,8 @@ CLAIMS["C12"] = dict(
          "default bins and bandwidths per axis), NaN at invalid positions, "
          "and that get_quantile_levels keeps the interpolation grid finite "
          "and strictly monotonic."
-         " In get_quantile_levels +-inf is a third kind of value: neither NaN nor inf events reach the interpolation.",
+         " In get_quantile_levels +-inf is a third kind of value: neither NaN nor inf events reach the interpolation."
+         ' For the Gaussian estimator z3 also proves that it is constructed from exactly the selected valid events (as a multiset).',
     note="NOT decided (floating-point library code, not encodable): that "
          "the spline / Gaussian / product-kernel estimators and the "
          "percentile itself compute the reference values; "
